@@ -824,11 +824,26 @@ def vine_history_replay(vtype, second, aspect):
     if second == 'P':
         A, X2 = _vine_same_margin_tables()
         t2 = 3
+    if second == 'F':
+        # the FIRST fit fails half-way (two perfectly co-monotone columns: the second tree cannot be estimated, ValueError also on the
+        # pristine library); whatever it left behind must not leak into the next, successful fit
+        import pandas as pd
+        rs = np.random.RandomState(2)
+        a = rs.normal(size=40)
+        A = pd.DataFrame({'a': a, 'b': np.exp(a), 'c': rs.normal(size=40)})
+        X2, t2 = C, 1
     with np.errstate(all='ignore'):
         v = VineCopula(vtype, random_state=5)
-        v.fit(A, truncated=2)
-        v.sample(2)
-        v.get_likelihood(np.full((1, 4), 0.4))
+        if second == 'F':
+            try:
+                v.fit(A, truncated=3)
+                return 'oracle design: the first fit was expected to raise'
+            except ValueError:
+                pass
+        else:
+            v.fit(A, truncated=2)
+            v.sample(2)
+            v.get_likelihood(np.full((1, 4), 0.4))
         try:
             v.fit(X2, truncated=t2)
         except Exception as ex:
@@ -871,9 +886,9 @@ def vine_history_replay(vtype, second, aspect):
 
 def vine_history(ctx, aspects):
     for vtype in ('center', 'direct', 'regular'):
-        for second in ('B', 'C', 'P'):
+        for second in ('B', 'C', 'P', 'F'):
             for aspect in aspects:
-                ctx.case(('vine-history', vtype, second, aspect), {'vine': vtype, 'history': f'fit(A,t=2); sample; likelihood; fit({second})' + (' [P: same margins as A, other dependence]' if second == 'P' else ''), 'aspect': aspect})
+                ctx.case(('vine-history', vtype, second, aspect), {'vine': vtype, 'history': f'fit(A,t=2); sample; likelihood; fit({second})' + (' [P: same margins as A, other dependence]' if second == 'P' else ' [F: the first fit FAILS half-way]' if second == 'F' else ''), 'aspect': aspect})
                 try:
                     why = vine_history_replay(vtype, second, aspect)
                 except Exception as ex:
